@@ -65,7 +65,7 @@ func c08Ops(rng *Rng, n int, allowText bool) []Action {
 			if rng.Chance(1, 2) {
 				out = append(out, Action{Op: "httperr", N: rng.Pick2(404, 500), S: "oops"})
 			} else {
-				out = append(out, Action{Op: "redirect", N: rng.Pick2(301, 302), S: "/to"})
+				out = append(out, Action{Op: "redirect", N: []int{301, 302, 303, 307, 308}[rng.Intn(5)], S: "/to"})
 			}
 		case 11:
 			if rng.Chance(1, 4) {
